@@ -812,7 +812,12 @@ def simplify(constraints, variables='x', target=None, **kwds):
         return _simplify(eqn, **kwds)
     """
     simple = _simplify
-    cons = [simple(ci, **kwds) for ci in cons] if type(cons) is tuple else simple(cons, **kwds)
+    if type(cons) is tuple and not all: # one case will do (a random one)
+        cons, cases = None, list(cons)
+        while cases and cons is None: # (one with no solution is dropped)
+            cons = simple(cases.pop(random.randint(0,len(cases)-1)), **kwds)
+    else:
+        cons = [simple(ci, **kwds) for ci in cons] if type(cons) is tuple else simple(cons, **kwds)
     #simple.__cache__().clear() #NOTE: clear stored entries
     eqns = tuple(it.chain.from_iterable(i if type(i) is tuple else (i,) for i in cons)) if type(cons) is list else (cons if type(cons) is tuple else (cons,))
     # a case (from an absolute value) without a solution contributes nothing
